@@ -87,6 +87,13 @@ func (run *FuncRun) enterLoopHeader(st *State, b *ssa.BasicBlock, ord int) bool 
 	}
 	// first arrival: invariant holds on entry
 	fr.loopEntry[b.Index] = st.Snap()
+	snapLocals := map[*ssa.Alloc]Val{}
+	for f := fr; f != nil; f = f.parent {
+		for a, v := range f.locals {
+			snapLocals[a] = v
+		}
+	}
+	fr.loopLocals[b.Index] = snapLocals
 	env := run.loopEnv(st, b, ord)
 	for _, cl := range spec.Invariants {
 		goals := env.proveGoals(cl.Expr)
